@@ -165,16 +165,19 @@ class C03(Prop):
             return False
         be = case["backend"]
         for (lim, s, e, off), a, b in zip(case["reads"], io["reads"], mo["reads"]):
+            # the property leaves events within about 2 ms of a window edge free to go either way (on every backend): they
+            # are left out of the comparison; everything else must agree exactly
             amb = set()
-            if be == "peewee" and s is not None:
+            if s is not None:
                 s1 = floor_ms(s)
-                amb = {x[0] for x in io["stored"] if abs(x[1] + x[2] - s1) <= MS}
+                amb |= {x[0] for x in io["stored"] if abs(x[1] + x[2] - s1) <= TOL or abs(x[1] + x[2] - s) <= TOL}
+            if e is not None:
+                amb |= {x[0] for x in io["stored"] if abs(x[1] - e) <= TOL}
             if not amb:
                 if not storelib.legal_read(be, a["get"], b["get"]) or a["count"] != b["count"]:
                     return False
             else:
-                # SQLite computes timestamp+duration through julianday doubles and formats it to ms: an event
-                # whose end lies within 1 ms of the window start may go either way; everything else must agree
+                # (peewee: SQLite computes timestamp+duration through julianday doubles and formats it to ms)
                 if abs(a["count"] - b["count"]) > len(amb):
                     return False
                 if lim < 0:
